@@ -113,10 +113,29 @@ def run(ctx, rep):
             ne = any(x[0] == "cmp" and x[1] == "Ne" for x in f)
             le = any(x[0] == "cmp" and ((x[1] == "Le" and str(x[3]) == "const:14") or (x[1] == "Lt" and str(x[3]) == "const:15") or (x[1] == "Ge" and str(x[2]) == "const:14") or (x[1] == "Gt" and str(x[2]) == "const:15")) for x in f)
             return ne and le
+        def total_known(eb, bi_):
+            """the ShortBlock exit lies where STREAMINFO's total_samples is Some: without a total nobody can tell the last block"""
+            def some_total(f):
+                return f is not TOP and any(x[0] == "is" and x[1] == "Some" and "total_samples" in str(x[2]) for x in (f or ()))
+            if some_total(ok.path_facts(eb).get(bi_)):
+                return True
+            hops = 0
+            while eb.kind == "Closure" and hops < 3:
+                pb = F.body(eb.parent)
+                if pb is None:
+                    return False
+                ppf = ok.path_facts(pb)
+                built = [bj for bj, bl in enumerate(pb.blocks) for s_ in bl["s"] if s_["rv"]["r"] == "agg" and s_["rv"].get("ak") == "closure" and s_["rv"].get("adt") == eb.path]
+                if built and all(some_total(ppf.get(bj)) for bj in built):
+                    return True
+                eb, hops = pb, hops + 1
+            return False
         sb_sites = [x for x in error_sites(F, "ShortBlock") if x[0].path.startswith(b.path)]
         found = False
         for eb, bi_, st_ in sb_sites:
             good_ = short_guard(eb, bi_)
+            rep.check("C05.short", "ShortBlock is raised only where the stream's total length is known", total_known(eb, bi_), eb.loc(st_["sp"]), "",
+                      "Error::ShortBlock can be raised for a stream whose STREAMINFO has no total_samples: there the last block cannot be told from the others, so a valid stream ending in a block of 14 samples or fewer is refused")
             found = found or good_
             rep.check("C05.short", "ShortBlock is raised only by the rule `size == remaining || size > 14` (a short last block is legal)", good_, eb.loc(st_["sp"]), "",
                       "Error::ShortBlock is raised by a test that lacks the last-block exemption: a valid stream whose final block has 14 samples or fewer is refused")
